@@ -26,8 +26,10 @@ shared `Rep`, assignment between two handles of one `Rep`, self-swap, destructio
 `pplv_c13` runs `Cow.step` in lock step: values, liveness, the partition of the handles by `Rep`,
 double deletes and the final live-block count must agree after every operation.
 
-Outside `Determinate` the sharing mechanisms of the library (recycling entry points, row swapping,
-lazy updates of `const` arguments) are validated by the correspondence run, not modelled.
+Outside `Determinate`: the recycling entry points, row swapping and the swap / assignment of systems
+and polyhedra are modelled and proved in stage 2 (`PPLV/Props/C13Move.lean`, heap-with-ownership
+machine `PPLV/Value/Move*.lean`, storage-level correspondence `pplv_c13 --move`); lazy updates of
+`const` arguments are validated by the correspondence run, not modelled.
 -/
 namespace C13
 open PPLV.Value
